@@ -291,6 +291,12 @@ func (b *backend) NewSession(c *smtp.Conn) (smtp.Session, error) {
 	id := b.s.w.connSeq
 	b.s.w.mu.Unlock()
 	_, isTLS := c.TLSConnectionState()
+	if b.s.script.Reply != nil && !isTLS {
+		// stage "session": the greeting is replaced by this reply and the connection closed
+		if e := b.s.script.Reply("session", ""); e != nil {
+			return nil, e
+		}
+	}
 	return &session{s: b.s, conn: c, connID: id, tls: isTLS}, nil
 }
 
